@@ -8,20 +8,21 @@ Open Scope N_scope.
 (** the ticket a thread holds: begin index and size of its reservation *)
 Definition ticket (p : pc) : option (N * N) :=
   match p with
-  | PChkF q b | PLdY q b | PSrc q b _ | PSetF q b _ | PPub q b _ | PUnw q b _ => Some (b, pub_incr q)
+  | PChkF q b | PLdY q b | PChkT q b | PSrc q b _ | PSetF q b _ | PPub q b _ | PUnw q b _ => Some (b, pub_incr q)
   | _ => None
   end.
 
-(** the thread is inside its critical section: it uses, or has just used, the wrapped iterator *)
+(** the thread is inside its critical section: it has found its ticket at the yielded counter (and is
+    about to look at the completed flag once more), it uses, or has just used, the wrapped iterator *)
 Definition in_crit (p : pc) : bool :=
-  match p with PSrc _ _ _ | PSetF _ _ _ | PPub _ _ _ | PUnw _ _ _ => true | _ => false end.
+  match p with PChkT _ _ | PSrc _ _ _ | PSetF _ _ _ | PPub _ _ _ | PUnw _ _ _ => true | _ => false end.
 
 Definition got_of (p : pc) : list N :=
   match p with PSrc _ _ g | PSetF _ _ g | PPub _ _ g | PUnw _ _ g => g | _ => [] end.
 
 Definition req_of (p : pc) : option req :=
   match p with
-  | PRes q | PChkF q _ | PLdY q _ | PSrc q _ _ | PSetF q _ _ | PPub q _ _ | PUnw q _ _ => Some q
+  | PRes q | PChkF q _ | PLdY q _ | PChkT q _ | PSrc q _ _ | PSetF q _ _ | PPub q _ _ | PUnw q _ _ => Some q
   | _ => None
   end.
 
@@ -61,6 +62,7 @@ Definition held (e : env) (ts : tstate) : list iv :=
   acc_iv e ts ++
   match t_pc ts with
   | PSrc _ b g | PSetF _ b g | PPub _ b g | PUnw _ b g => [(b, N.of_nat (length g))]
+  | PChkT _ b => [(b, 0)]
   | _ => []
   end.
 
@@ -142,9 +144,15 @@ Proof. intros H. unfold step. rewrite H. reflexivity. Qed.
 
 Lemma istep_ldy c t q b : t_pc (c_pool c t) = PLdY q b ->
   step e c t =
-  if b =? s_y (c_sh c) then commit c t (c_sh c) (set_pc (c_pool c t) (PSrc q b [])) (LAtom t SY ALoad 0 (s_y (c_sh c)) (o_ldy q)) []
+  if b =? s_y (c_sh c) then commit c t (c_sh c) (set_pc (c_pool c t) (PChkT q b)) (LAtom t SY ALoad 0 (s_y (c_sh c)) (o_ldy q)) []
   else if b <? s_y (c_sh c) then finish e c t (c_sh c) (c_pool c t) (LAtom t SY ALoad 0 (s_y (c_sh c)) (o_ldy q)) q (Ok PREnd)
   else commit c t (c_sh c) (set_pc (c_pool c t) (PChkF q b)) (LAtom t SY ALoad 0 (s_y (c_sh c)) (o_ldy q)) [].
+Proof. intros H. unfold step. rewrite H. reflexivity. Qed.
+
+Lemma istep_chkt c t q b : t_pc (c_pool c t) = PChkT q b ->
+  step e c t =
+  if s_f (c_sh c) then finish e c t (c_sh c) (c_pool c t) (LAtom t SF ALoad 0 (bN (s_f (c_sh c))) (o_chkt q)) q (Ok PREnd)
+  else commit c t (c_sh c) (set_pc (c_pool c t) (PSrc q b [])) (LAtom t SF ALoad 0 (bN (s_f (c_sh c))) (o_chkt q)) [].
 Proof. intros H. unfold step. rewrite H. reflexivity. Qed.
 
 Lemma istep_skip c t : t_pc (c_pool c t) = PSkip ->
